@@ -1,5 +1,9 @@
 import Proofs.Lemmas.LexShebang
 import Model.LexCfg
+import Spec.ErrLoc
+import Generated.C18ErrLoc
+import Proofs.Lemmas.Frag
+import Generated.C18Frag
 /-!
 # C18 — token spans: in bounds, ordered and disjoint, line = number of newlines
 before the span, token text = source text
@@ -9,6 +13,11 @@ Property theorems only. `Model.Lex` mirrors `lexer/*.go`; the configuration
 The theorems are generic in the configuration under the decidable
 well-formedness predicates `WF`/`WF2`, which are discharged for `genCfg` here
 (`gen_wf`, `gen_wf2`): a change of the token table that breaks them breaks the build.
+
+Error-location clause (last section): `Model.ErrLoc` — the location of an error while the throw
+control unwinds through the constructs that stamp it (`checkThrowControlFrom`, `fillThrowFrom`);
+the guard flag of every write to an existing error's location is regenerated from the source
+(`Generated.C18.fromWrites`) and must be `true` (`gen_from_writes_guarded`).
 -/
 namespace C18
 open Model.Lex Proofs.Lex
@@ -155,6 +164,140 @@ theorem C18_ns_merge_gap_witness :
     ((tokenize genCfg #[92, 32, 65, 112, 112] .script).1.toks.map (fun t => (t.start, t.stop, t.lit)))
       = [(0, 5, [92, 65, 112, 112])] := by
   decide +kernel
+
+/-! ### error locations: a location, once set, survives the unwinding -/
+
+section ErrLoc
+open Model.ErrLoc
+
+/-- the translator could read the sources it scans for location writes -/
+theorem gen_errloc_shape : Generated.C18.shapeChanged = [] := by decide
+
+/-- **Obligation on the source.** Every assignment to the location of an existing error
+(`<x>.Error.From = …` anywhere in the non-test Go source) is made under `if <x>.Error.From == nil`:
+it fills a missing location, it never replaces one. -/
+theorem gen_from_writes_guarded : ∀ w ∈ Generated.C18.fromWrites, w.guarded = true := by decide
+
+/-- **A location is never overwritten once set** — invariant by induction over the unwinding
+path: whatever constructs the error passes on its way out (any number, any positions of their
+own), if each of them writes only under the nil test, the error arrives with the location it was
+raised with. -/
+theorem C18_error_location_kept (path : List Stamp) (hg : ∀ s ∈ path, s.guarded = true) (l : Loc) :
+    unwind path (some l) = some l := by
+  induction path with
+  | nil => rfl
+  | cons s rest ih =>
+    have hs : s.guarded = true := hg s (List.mem_cons_self ..)
+    have : stamp s (some l) = some l := by
+      unfold stamp; cases s.own <;> simp [hs]
+    rw [unwind, this]
+    exact ih (fun t ht => hg t (List.mem_cons_of_mem _ ht))
+
+/-- **Model = Spec**, every path and every start: the reported location is the one the error was
+raised with, and an error raised without one gets the position of the innermost enclosing
+construct that has one (and keeps it from there on). -/
+theorem C18_error_location_reported (path : List Stamp) (hg : ∀ s ∈ path, s.guarded = true)
+    (raised : Option Loc) :
+    unwind path raised = Spec.ErrLoc.reported raised (path.map (·.own)) := by
+  induction path generalizing raised with
+  | nil => cases raised <;> simp [unwind, Spec.ErrLoc.reported]
+  | cons s rest ih =>
+    have hs : s.guarded = true := hg s (List.mem_cons_self ..)
+    have hrest := fun t ht => hg t (List.mem_cons_of_mem _ ht)
+    rw [unwind, ih hrest]
+    cases raised with
+    | some l =>
+      have : stamp s (some l) = some l := by unfold stamp; cases s.own <;> simp [hs]
+      simp [this, Spec.ErrLoc.reported]
+    | none =>
+      have : stamp s none = s.own := by unfold stamp; cases s.own <;> simp [hs]
+      simp [this, Spec.ErrLoc.reported]
+
+/-- **The nil test is necessary**: ONE construct on the path that writes without it (and has a
+position of its own) decides the outcome — whatever location the error had, wherever on the path
+the construct sits, the error arrives with that construct's position. This is the class of change
+the nested planted-fault stream of the harness looks for on the real interpreter. -/
+theorem C18_unguarded_write_clobbers (pre post : List Stamp) (hpost : ∀ s ∈ post, s.guarded = true)
+    (f : Loc) (cur : Option Loc) :
+    unwind (pre ++ ⟨false, some f⟩ :: post) cur = some f := by
+  induction pre generalizing cur with
+  | nil =>
+    have : stamp ⟨false, some f⟩ cur = some f := by simp [stamp]
+    simp only [List.nil_append, unwind, this]
+    exact C18_error_location_kept post hpost f
+  | cons s rest ih => simpa [unwind] using ih (stamp s cur)
+
+/-- the invariant for the writers the source has today: a path every step of which uses one of
+the regenerated writers keeps the location -/
+theorem C18_generated_writers_keep_location (path : List Stamp)
+    (hw : ∀ s ∈ path, ∃ w ∈ Generated.C18.fromWrites, s.guarded = w.guarded) (l : Loc) :
+    unwind path (some l) = some l :=
+  C18_error_location_kept path (fun s hs => by
+    obtain ⟨w, hwm, e⟩ := hw s hs
+    rw [e]; exact gen_from_writes_guarded w hwm) l
+
+/-- non-vacuity: a throw on line 9 inside an `if` (line 7) inside a `for` body statement (line 5)
+keeps line 9 through two guarded stamps; without a location it gets line 7; and the same path
+with the `for` stamp unguarded reports line 5 -/
+example :
+    unwind [⟨true, some ⟨1, 7, 2⟩⟩, ⟨true, some ⟨1, 5, 0⟩⟩] (some ⟨1, 9, 4⟩) = some ⟨1, 9, 4⟩ ∧
+    unwind [⟨true, none⟩, ⟨true, some ⟨1, 7, 2⟩⟩, ⟨true, some ⟨1, 5, 0⟩⟩] none = some ⟨1, 7, 2⟩ ∧
+    unwind [⟨true, some ⟨1, 7, 2⟩⟩, ⟨false, some ⟨1, 5, 0⟩⟩] (some ⟨1, 9, 4⟩) = some ⟨1, 5, 0⟩ ∧
+    (∃ w ∈ Generated.C18.fromWrites, w.fn = "checkThrowControlFrom") := by decide
+
+end ErrLoc
+
+/-! ### the line of an interpolation fragment: rune-index arithmetic agrees with the byte-level line law -/
+
+section Frag
+open Model.Frag
+
+/-- **Obligation on the source** (units): `fragmentLineCol` takes the RUNE slice, its body is the
+loop that counts the `'\n'` runes among the first `k`, every call site in
+`processStringInterpolation` passes `runes`, and `runes` is `[]rune(content)`. -/
+theorem gen_frag_units :
+    Generated.C18Frag.shapeChanged = [] ∧
+    Generated.C18Frag.paramTypes = ["Token", "[]rune", "int", "int"] ∧
+    Generated.C18Frag.countsNewlineRunes = true ∧
+    Generated.C18Frag.callArgs ≠ [] ∧ (∀ a ∈ Generated.C18Frag.callArgs, a.1 = "runes") ∧
+    Generated.C18Frag.runesDefs = ["[]rune(content)"] := by decide
+
+/-- **Fragment line.** For every content (any runes, multi-byte or not, any number of line ends),
+every rune index `k` and every line of the string token: the line `fragmentLineCol` computes from
+the rune index is the line, by the byte-level law of this property (`line0` + number of `\n` bytes
+before the position), of the byte at which the `k`-th rune starts in the source text
+`string(runes)`. -/
+theorem C18_fragment_line (runes : List Nat) (k line : Nat) :
+    fragLine runes k line = Spec.Frag.lineAt (encode runes) (Spec.Frag.byteOffset runes k) line := by
+  induction runes generalizing k line with
+  | nil => simp [fragLine, Spec.Frag.lineAt, Spec.Frag.byteOffset, encode]
+  | cons r rs ih =>
+    cases k with
+    | zero => simp [fragLine, Spec.Frag.lineAt, Spec.Frag.byteOffset, encode]
+    | succ k =>
+      rw [fragLine, ih]
+      unfold Spec.Frag.lineAt Spec.Frag.byteOffset
+      rw [Proofs.Frag.encode_take_succ, List.length_append, Proofs.Frag.take_encode_cons,
+        List.count_append, Proofs.Frag.count_nl_encodeRune]
+      split <;> omega
+
+/-- **The units matter** (negation witness, replayed on the real lexer by the harness): the same
+index used as a byte offset into the content loses the line end after multi-byte text —
+`中\n$` , fragment at rune 2: one line end precedes it, the byte-indexed count sees none. -/
+theorem C18_fragment_line_byte_indexed_counterexample :
+    ¬ ∀ (runes : List Nat) (k line : Nat),
+      fragLineByteIndexed (encode runes) k line = Spec.Frag.lineAt (encode runes) (Spec.Frag.byteOffset runes k) line := by
+  intro h
+  have := h [0x4E2D, 10, 36] 2 0
+  revert this
+  decide
+
+/-- non-vacuity: `标题\n{$o}` — the fragment at rune 3 starts at byte 7, on line 1 of a string that
+starts on line 0 -/
+example : fragLine [0x6807, 0x9898, 10, 123, 36, 111, 125] 3 0 = 1 ∧
+    Spec.Frag.byteOffset [0x6807, 0x9898, 10, 123, 36, 111, 125] 3 = 7 := by decide
+
+end Frag
 
 /-! ### non-vacuity -/
 
